@@ -21,7 +21,7 @@ func init() { register("C13", checkC13) }
 
 func checkC13(c *Ctx) {
 	r, p := c.R, c.P
-	r.Explanation = "Decides structural necessary conditions of C13. Constructs are resolved by role from the exported API (fifo.Mutex/New/NewMap, cmap.NewMutex, lock.Context, lock.OuterCancel and their exported methods) through types and dataflow, never by unexported names; path rules follow same-module callees, closures, bound methods and deferred calls as if inlined and resolve returned constants, so helper extraction/inlining, closure<->method, guard inversion, defer<->explicit and renames do not matter. (G) the per-key tables of the fifo map and the cmap mutex map, the fifo entry count and OuterCancel's reader table/index are only touched under their table lock; (DC) a per-key lock is inserted only while the table write lock is held and the key was observed absent under that same hold; (B) Lock/RLock of the maps acquire a per-key lock on every returning path and never while the table lock is held; (RC) an entry is removed only under a 'count == 0' observation made under the same hold (for the cmap map no count exists: known findings); (P) the fifo map's Lock counts the caller in exactly once, in the critical section that looked the entry up, before blocking, and Unlock counts it out exactly once; (CAP) the channel mutexes are created with capacity exactly 1 and fifo.Mutex.Lock sends / Unlock receives on every path; (CTX) lock.Context: a nil return holds token+RWMutex, any other return holds nothing, an error return exists, Unlock/RUnlock release both; (OC) OuterCancel's request loop: at the end of every request the slot is released or its release was handed out in the response, an error response is sent holding nothing, the writer grant is sent with the slot held after the cancel fan-out and a wg.Wait made while holding the slot, the reader grant is sent with the slot held after wg.Add(1), the reader release does wg.Done at most once (once-guard under the table lock, or sync.Once/atomic), removes its table entry and cancels with the configured cause, and the function registered in the reader table reaches the cancellation only after a wait on {timer(gracefulTimeout) started in that function, shutdown channel, channel closed by the release}. NOT decided: mutual exclusion and FIFO order as runtime facts (FIFO rests on the Go runtime's channel queue order), cancellation causes over all histories, grace timing."
+	r.Explanation = "Decides structural necessary conditions of C13. Constructs are resolved by role from the exported API (fifo.Mutex/New/NewMap, cmap.NewMutex, lock.Context, lock.OuterCancel and their exported methods) through types and dataflow, never by unexported names; path rules follow same-module callees, closures, bound methods and deferred calls as if inlined and resolve returned constants, so helper extraction/inlining, closure<->method, guard inversion, defer<->explicit and renames do not matter. (G) the per-key tables of the fifo map and the cmap mutex map, the fifo entry count and OuterCancel's reader table/index are only touched under their table lock; (DC) a per-key lock is inserted only while the table write lock is held and the key was observed absent under that same hold; (B) Lock/RLock of the maps acquire a per-key lock on every returning path and never while the table lock is held; (RC) an entry is removed only under a 'count == 0' observation made under the same hold (for the cmap map no count exists: known findings); (P) the fifo map's Lock counts the caller in exactly once, in the critical section that looked the entry up, before blocking, and Unlock counts it out exactly once; (CAP) the channel mutexes are created with capacity exactly 1 and fifo.Mutex.Lock sends / Unlock receives on every path; (CTX) lock.Context: a nil return holds token+RWMutex, any other return holds nothing, an error return exists, Unlock/RUnlock release both; (OC) OuterCancel's request loop: at the end of every request the slot is released or its release was handed out in the response, an error response is sent holding nothing, the writer grant is sent with the slot held after the cancel fan-out and a wg.Wait made while holding the slot, the reader grant is sent with the slot held after wg.Add(1), the reader release does wg.Done at most once (once-guard under the table lock, or sync.Once/atomic), removes its table entry and cancels with the configured cause, the function registered in the reader table reaches the cancellation only after a wait on {timer(gracefulTimeout) started in that function, shutdown channel, channel closed by the release}, the loop's wait for the slot on behalf of a request that may carry a context is a select that also has that context's Done channel (requests known to carry none wait unconditionally), and every exported requester (Lock/RLock), once its request was handed to the loop, receives the reply before returning (or leaves through the shutdown case). Calls through function values whose target is visible are followed: closure parameters, method values/expressions, func-typed fields and package variables assigned once, elements of literal tables, interface values with a known or single implementation; by-value structs keep type-based field identity; entries held by value need a write-back. NOT decided: mutual exclusion and FIFO order as runtime facts (FIFO rests on the Go runtime's channel queue order), cancellation causes over all histories, grace timing."
 	r.Assumptions = append(r.Assumptions, "type-based lock identity: all per-key locks of one table are one abstract lock", "blocked senders on a channel are served in arrival order by the Go runtime (FIFO claim rests on this; not analysed)", "objects of one type are not distinguished (one abstract entry / reader per type)")
 	r.Rule("C13.G-guard", "per-key tables and refcounts only under the table lock", 9)
 	r.Rule("C13.DC-double-checked-create", "a per-key lock is inserted into the table only in the critical section that (re-)checked its absence", 3)
@@ -30,7 +30,7 @@ func checkC13(c *Ctx) {
 	r.Rule("C13.P-count-pairing", "fifo map Lock increments the entry count exactly once before blocking; Unlock decrements exactly once", 2)
 	r.Rule("C13.CAP-chan-mutex", "channel mutexes have capacity 1; Lock sends, Unlock receives, unconditionally", 5)
 	r.Rule("C13.CTX-context-lock", "lock.Context: error return holds nothing, nil return holds token+RWMutex; unlock releases both", 4)
-	r.Rule("C13.OC-outercancel", "OuterCancel hold handling: slot released or handed out per path; writer waits for readers; reader accounting once", 7)
+	r.Rule("C13.OC-outercancel", "OuterCancel hold handling: slot released or handed out per path; cancellable wait; writer waits for readers; reader accounting once; requesters collect the reply", 10)
 
 	e := c.Locks()
 	ro := resolveC13Roles(p)
@@ -55,6 +55,17 @@ func checkC13(c *Ctx) {
 		{Field: ro.ocTable, Lock: c13LockID(ro.ocGuard)},
 		{Field: ro.ocNext, Lock: c13LockID(ro.ocGuard)},
 	}
+	if ft := c13FieldType(ro.fmap, ro.fmapItems); ft != nil {
+		if m, ok := ft.Underlying().(*types.Map); ok {
+			if _, byValue := m.Elem().Underlying().(*types.Struct); byValue {
+				// entries held by value: the count lives inside the map's values and is
+				// only reachable through table operations (guarded as such); the
+				// adjustments are made on local copies
+				specs = append(specs[:1], specs[2:]...)
+				r.Note("C13.G: %s entries are held by value; %s is guarded through the table operations", ro.fmapItems, ro.fitemCount)
+			}
+		}
+	}
 	c13CheckGuards(c, ro, "C13.G-guard", specs)
 
 	tables := []*c13Table{
@@ -66,6 +77,12 @@ func checkC13(c *Ctx) {
 			}},
 	}
 	for _, t := range tables {
+		if ft := c13FieldType(t.typ, t.items); ft != nil {
+			if m, ok := ft.Underlying().(*types.Map); ok {
+				_, isStruct := m.Elem().Underlying().(*types.Struct)
+				t.byValue = isStruct
+			}
+		}
 		c13CheckTable(c, t)
 	}
 	c13ChanMutex(c, ro)
@@ -184,6 +201,11 @@ func c13LockIs(x *C13Ctx, recv ssa.Value, f FieldID) bool {
 
 // c13ChanKey is an identity for the channel denoted by v on the current path.
 func c13ChanKey(x *C13Ctx, v ssa.Value) string {
+	// a channel read from a struct field is identified by that field (type
+	// based), whatever is known about the value stored there on this path
+	if id, ok := c13FieldOf(nil, c13StripConv(v)); ok && id.Type != "" {
+		return c13ChanID(c13CanonChan(id))
+	}
 	r := c13StripConv(x.Resolve(v))
 	for i := 0; i < 6; i++ { // conversions (chan T -> <-chan T) may sit between the hops
 		n := c13StripConv(x.Resolve(r))
@@ -255,6 +277,7 @@ type c13Table struct {
 	items      FieldID
 	count      FieldID // zero value: the table has no holders/waiters count
 	pairing    bool
+	byValue    bool // the table's elements are struct values (adjustments need a write-back)
 	outside    map[string]string
 }
 
@@ -270,6 +293,7 @@ const (
 	c13tbCnt1
 	c13tbOne     // count observed == 1 under the current hold (zero after the count-out that follows)
 	c13tbPending // an entry was removed under "count == 1": the count-out must follow in this hold
+	c13tbDirty   // by-value entries: the count was adjusted on a copy that is not written back yet
 )
 
 func c13tbCount(st uint64) int { return int(st/c13tbCnt0) & 3 }
@@ -462,6 +486,10 @@ func c13ExploreTableRoot(p *Prog, t *c13Table, fn *ssa.Function, name, short str
 		if st&c13tbPending != 0 {
 			res.remBad = append(res.remBad, "an entry is removed under a 'count == 1' test but the count is not decremented before the table lock is released")
 		}
+		if st&c13tbDirty != 0 && t.pairing {
+			res.pairBad = append(res.pairBad, "the count is adjusted on a copy of the entry that is neither written back to the table nor removed before the table lock is released (the adjustment is lost)")
+		}
+		st &^= c13tbDirty
 		return st &^ (c13tbAbsent | c13tbFresh | c13tbZero | c13tbOne | c13tbPending)
 	}
 	curCount := func(x *C13Ctx, v ssa.Value) bool {
@@ -513,7 +541,9 @@ func c13ExploreTableRoot(p *Prog, t *c13Table, fn *ssa.Function, name, short str
 						}
 						if t.pairing && short == "Lock" {
 							res.pairPoints++
-							if n := c13tbCount(st); n != 1 {
+							if n := c13tbCount(st); n == 3 {
+								res.countEscapes = append(res.countEscapes, "a store to the count whose effect is not recognised (before "+site+")")
+							} else if n != 1 {
 								res.pairBad = append(res.pairBad, fmt.Sprintf("at the blocking per-key Lock (%s) the caller has been counted in %s times", site, c13CntName(n)))
 							}
 						}
@@ -537,6 +567,7 @@ func c13ExploreTableRoot(p *Prog, t *c13Table, fn *ssa.Function, name, short str
 					if len(v.Common().Args) > 0 && isItems(x, v.Common().Args[0]) {
 						site := builtinName(v) + " at " + pos(in) + " in " + FuncName(p, in.Parent())
 						res.remSites = append(res.remSites, site)
+						st &^= c13tbDirty
 						if !res.firstRm.IsValid() {
 							res.firstRm = instrPos(in)
 						}
@@ -567,7 +598,19 @@ func c13ExploreTableRoot(p *Prog, t *c13Table, fn *ssa.Function, name, short str
 					if !res.firstIns.IsValid() {
 						res.firstIns = instrPos(in)
 					}
+					st &^= c13tbDirty
+					derived := false
+					if lk := x.Fact("lookup"); lk != nil && st&c13tbW != 0 {
+						// writing back the entry that was looked up under this very hold
+						// (by-value entries) installs no new per-key lock
+						val := c13StripConv(x.Resolve(v.Value))
+						if exr, ok := val.(*ssa.Extract); ok && exr.Index == 0 {
+							val = exr.Tuple
+						}
+						derived = val == lk
+					}
 					switch {
+					case derived:
 					case st&c13tbW == 0:
 						res.insBad = append(res.insBad, "insertion at "+site+" without the exclusive table lock")
 					case st&c13tbAbsent == 0:
@@ -598,6 +641,9 @@ func c13ExploreTableRoot(p *Prog, t *c13Table, fn *ssa.Function, name, short str
 						d := c13Delta(x, val, t.count, freshOnPath || isFreshBase(fa.X), curCount)
 						x.DelFactsWithPrefix("cntld:")
 						x.SetFact("count", val)
+						if t.byValue {
+							st |= c13tbDirty
+						}
 						if st&c13tbOne != 0 && d == -1 {
 							st = st&^(c13tbOne|c13tbPending) | c13tbZero
 						} else {
@@ -686,7 +732,9 @@ func c13ExploreTableRoot(p *Prog, t *c13Table, fn *ssa.Function, name, short str
 			}
 			if t.pairing && (short == "Lock" || short == "Unlock") {
 				res.pairPoints++
-				if n := c13tbCount(st); n != 1 {
+				if n := c13tbCount(st); n == 3 {
+					res.countEscapes = append(res.countEscapes, "a store to the count whose effect is not recognised (before the return at "+p.Pos(instrPos(ret))+")")
+				} else if n != 1 {
 					res.pairBad = append(res.pairBad, fmt.Sprintf("at the return (%s) the caller has been counted %s %s times", p.Pos(instrPos(ret)), map[string]string{"Lock": "in", "Unlock": "out"}[short], c13CntName(n)))
 				}
 			}
@@ -740,6 +788,24 @@ func c13SwapOp(op token.Token) token.Token {
 // `count = count ± 1` (either operand order for +), or the constant 1 stored
 // into the count of an entry allocated here (a new entry that starts at 1).
 func c13Delta(x *C13Ctx, val ssa.Value, f FieldID, freshBase bool, cur func(*C13Ctx, ssa.Value) bool) int {
+	// a constant stored over a known constant (an entry allocated on this path
+	// whose count is tracked value by value): the difference
+	if k, ok := val.(*ssa.Const); ok && k.Value != nil && k.Value.Kind() == constant.Int {
+		prev := int64(0)
+		known := freshBase
+		if pc, ok := x.Fact("count").(*ssa.Const); ok && pc != nil && pc.Value != nil && pc.Value.Kind() == constant.Int {
+			prev, known = pc.Int64(), true
+		}
+		if known {
+			switch k.Int64() - prev {
+			case 1:
+				return 1
+			case -1:
+				return -1
+			}
+			return 99
+		}
+	}
 	if freshBase && c13IsConstInt(val, 1) {
 		return 1
 	}
